@@ -652,6 +652,9 @@ class _Replace(ast.NodeTransformer):
 PURE_CALLS = {"len", "int", "float", "str", "bool", "tuple", "list", "range", "abs", "min", "max", "sum", "sorted",
               "np.array", "np.prod", "np.arange", "np.asarray", "os.path.join", "os.path.basename", "os.path.split",
               "os.path.normpath", "np.unique", "np.argsort", "np.flip", "np.flatnonzero", "np.zeros", "np.ones",
+              "np.transpose", "np.stack", "np.concatenate", "np.min", "np.max", "np.sum", "np.floor", "np.ceil", "np.abs",
+              "np.sqrt", "np.repeat", "np.reshape", "np.where", "np.nonzero", "np.isclose", "np.all", "np.any",
+              "np.linspace", "np.full", "np.zeros_like", "np.ones_like", "np.sort", "np.round", "os.path.dirname",
               # the repository's FAB-header accessors are functions of their string argument (inventory rule C14)
               "shape_from_header", "indices_from_header", "indexes_and_shape_from_header"}
 
@@ -1057,7 +1060,18 @@ class _Idioms(ast.NodeTransformer):
         self.generic_visit(n)
         return n
 
-    visit_ListComp = visit_SetComp = visit_GeneratorExp = visit_DictComp = _comp
+    visit_SetComp = visit_GeneratorExp = visit_DictComp = _comp
+
+    def visit_ListComp(self, n):
+        n = self._comp(n)
+        # [x for x in S]  ->  list(S)   (identity comprehension: the same list)
+        if isinstance(n, ast.ListComp) and len(n.generators) == 1:
+            g = n.generators[0]
+            if not g.ifs and not g.is_async and isinstance(g.target, ast.Name) and isinstance(n.elt, ast.Name) \
+                    and n.elt.id == g.target.id:
+                self.applied.append("identity-comp")
+                return ast.copy_location(ast.Call(func=ast.Name(id="list", ctx=ast.Load()), args=[g.iter], keywords=[]), n)
+        return n
 
 
 def _dotted(text):
@@ -1220,11 +1234,42 @@ def io_comprehensions_to_loops(tree):
     return applied
 
 
+def extend_to_appends(tree):
+    """`xs.extend([a, b])` as a statement  ->  `xs.append(a); xs.append(b)` (a literal list of call-free or single
+    elements: the same elements in the same order)"""
+    applied = []
+    for x in ast.walk(tree):
+        for fld in ("body", "orelse", "finalbody"):
+            blk = getattr(x, fld, None)
+            if not (isinstance(blk, list) and blk and isinstance(blk[0], ast.stmt)):
+                continue
+            i = 0
+            while i < len(blk):
+                s = blk[i]
+                c = s.value if isinstance(s, ast.Expr) else None
+                if isinstance(c, ast.Call) and isinstance(c.func, ast.Attribute) and c.func.attr == "extend" and \
+                        isinstance(c.func.value, ast.Name) and len(c.args) == 1 and not c.keywords and \
+                        isinstance(c.args[0], (ast.List, ast.Tuple)) and c.args[0].elts and \
+                        not any(isinstance(e, ast.Starred) for e in c.args[0].elts) and \
+                        not any(isinstance(y, ast.Name) and y.id == c.func.value.id for e in c.args[0].elts for y in ast.walk(e)):
+                    new = []
+                    for e in c.args[0].elts:
+                        call = ast.Call(func=ast.Attribute(value=ast.Name(id=c.func.value.id, ctx=ast.Load()), attr="append",
+                                                           ctx=ast.Load()), args=[e], keywords=[])
+                        new.append(ast.fix_missing_locations(ast.copy_location(ast.Expr(value=call), s)))
+                    blk[i:i + 1] = new
+                    applied.append("extend-literal")
+                    i += len(new)
+                    continue
+                i += 1
+    return applied
+
+
 def normalise_idioms(tree):
     t = _Idioms()
     t.visit(tree)
     ast.fix_missing_locations(tree)
-    return t.applied + drop_dead_containers(tree) + io_comprehensions_to_loops(tree) + loops_to_comprehensions(tree)
+    return t.applied + extend_to_appends(tree) + drop_dead_containers(tree) + io_comprehensions_to_loops(tree) + loops_to_comprehensions(tree)
 
 
 # ------------------------------------------------------------------------------------------------ entry point
@@ -1253,6 +1298,54 @@ def _projectable(e):
             return False
         e = e.value
     return isinstance(e, ast.Name)
+
+
+def split_disjoint_bindings(fn, cands):
+    """a new local bound by several plain assignments whose uses are disjoint (each load lies after exactly one of the
+    bindings, in the same block tail, and no tail re-binds the name) is one name for several independent variables:
+    every binding gets its own name so that the Inline Variable pass can treat each on its own"""
+    applied = []
+    for v in sorted(cands):
+        stores = [x for x in ast.walk(fn) if isinstance(x, ast.Name) and x.id == v and isinstance(x.ctx, (ast.Store, ast.Del))]
+        if len(stores) < 2:
+            continue
+        binds = []
+        for x in ast.walk(fn):
+            for fld in ("body", "orelse", "finalbody"):
+                blk = getattr(x, fld, None)
+                if isinstance(blk, list) and blk and isinstance(blk[0], ast.stmt):
+                    for i, st in enumerate(blk):
+                        if isinstance(st, ast.Assign) and len(st.targets) == 1 and isinstance(st.targets[0], ast.Name) \
+                                and st.targets[0].id == v:
+                            binds.append((blk, i, st))
+        if len(binds) != len(stores):
+            continue
+        loads_all = {id(x) for x in ast.walk(fn) if isinstance(x, ast.Name) and x.id == v and isinstance(x.ctx, ast.Load)}
+        groups, ok, seen = [], True, set()
+        for blk, i, st in binds:
+            if any(isinstance(y, ast.Name) and y.id == v for y in ast.walk(st.value)):
+                ok = False
+                break
+            tail = blk[i + 1:]
+            if any(isinstance(y, ast.Name) and y.id == v and isinstance(y.ctx, (ast.Store, ast.Del))
+                   for t in tail for y in ast.walk(t)):
+                ok = False
+                break
+            mine = [y for t in tail for y in ast.walk(t) if isinstance(y, ast.Name) and y.id == v]
+            if any(id(y) in seen for y in mine):
+                ok = False
+                break
+            seen |= {id(y) for y in mine}
+            groups.append((st, mine))
+        if not ok or seen != loads_all:
+            continue
+        for k, (st, mine) in enumerate(groups):
+            nm = f"{v}__{k}"
+            st.targets[0].id = nm
+            for y in mine:
+                y.id = nm
+        applied.append(v)
+    return applied
 
 
 def untuple_new_locals(fn, cands):
@@ -1295,6 +1388,25 @@ def untuple_new_locals(fn, cands):
                         i += len(parts)
                         continue
                 elif isinstance(s, ast.For) and isinstance(s.target, (ast.Tuple, ast.List)) and new_names(s.target.elts) \
+                        and isinstance(s.iter, ast.Call) and _call_name(s.iter) == "zip" and not s.iter.keywords and \
+                        len(s.iter.args) == len(s.target.elts) and all(_projectable(a) for a in s.iter.args) and \
+                        not s.orelse:
+                    # for a, b in zip(X, Y)  ->  for k in range(min(len(X), len(Y))) with a, b read as X[k], Y[k]
+                    name = f"_ut{fresh[0]}"
+                    fresh[0] += 1
+                    for t, a in zip(s.target.elts, s.iter.args):
+                        v = ast.Subscript(value=copy.deepcopy(a), slice=ast.Name(id=name, ctx=ast.Load()), ctx=ast.Load())
+                        for b in s.body:
+                            _SubstLoad(t.id, v).visit(b)
+                    applied.append(",".join(t.id for t in s.target.elts))
+                    lens = [ast.Call(func=ast.Name(id="len", ctx=ast.Load()), args=[copy.deepcopy(a)], keywords=[])
+                            for a in s.iter.args]
+                    cnt = lens[0] if len(lens) == 1 else ast.Call(func=ast.Name(id="min", ctx=ast.Load()), args=lens, keywords=[])
+                    s.iter = ast.copy_location(ast.Call(func=ast.Name(id="range", ctx=ast.Load()), args=[cnt], keywords=[]),
+                                               s.iter)
+                    s.target = ast.copy_location(ast.Name(id=name, ctx=ast.Store()), s.target)
+                    ast.fix_missing_locations(s)
+                elif isinstance(s, ast.For) and isinstance(s.target, (ast.Tuple, ast.List)) and new_names(s.target.elts) \
                         and not (isinstance(s.iter, ast.Call) and _call_name(s.iter).split(".")[-1] in
                                  ("zip", "enumerate", "items", "product")):
                     name = f"_ut{fresh[0]}"
@@ -1326,6 +1438,8 @@ def inline_new_locals(relpath, tree):
         cands = {n for n in local if n not in r["locals"] and n not in r["params"]}
         if not cands:
             continue
+        for v in split_disjoint_bindings(fn, cands):
+            applied.append((q, "split-bindings", v))
         for v in untuple_new_locals(fn, cands):
             applied.append((q, "untuple", v))
         params, local = alpha.function_locals(fn, g)
